@@ -274,7 +274,12 @@ def one_run(sc, placement, sub_id):
         if placement[1] == "file_read":
             # the file is read by the I/O thread after the task has returned: a request that was already executed
             # when the read failed was not executed *after* the failure
-            calls_b = [c for c in calls_b if raise_seq is not None and c["begin"] is not None and c["begin"] > raise_seq]
+            # (nor was one whose task a worker had already taken from the pool before the I/O loop was back in its
+            # poll after the failure: that worker may have passed its own 'still connected' test before the teardown)
+            back = next((x[0] for x in k.history if raise_seq is not None and x[0] > raise_seq and x[1] == "io" and x[2] in ("select", "poll")), None)
+            pops = [x[0] for x in k.history if x[2] == "task_pop" and x[3] == 0]
+            calls_b = [c for c in calls_b if back is not None and c["begin"] is not None and c["begin"] > back
+                       and max([q for q in pops if q < c["begin"]] or [0]) > back]
         if calls_b:
             v("executed_after_failure", "the next request on the connection was executed after the failure")
     # every file handed over must be closed by the time the connection is gone
